@@ -73,6 +73,11 @@ def gen_cases(rng, tier):
             cases.append({"kind": "decor", "how": how, "deco": deco, "calls": 3})
             if how in ("full", "disabling"):      # the same calls overlapping in time: a disabled cache must not merge them either
                 cases.append({"kind": "decor", "how": how, "deco": deco, "calls": 3, "conc": True})
+    for deco in ["cache", "early", "soft", "hit"]:      # ANOTHER backend (registered under a prefix the function's keys do not have) is disabled: nothing changes for this one
+        cases.append({"kind": "decor", "how": "other_disabled", "deco": deco, "calls": 3})
+    for how in ["full", "disabling"]:      # the lock decorators guard nothing when the cache is disabled, and never refuse a call
+        for deco in ["locked", "locked_nowait"]:
+            cases.append({"kind": "decor", "how": how, "deco": deco, "calls": 3})
     for _ in range(120 if tier == "quick" else 1500):
         ops, tasks = [], [0]
         for _ in range(rng.randint(3, 14)):
@@ -266,7 +271,8 @@ def run_impl(case):
                 await cache.init()
                 n = {"n": 0}
                 deco = {"cache": cache(ttl=100), "early": cache.early(ttl=100, early_ttl=50), "soft": cache.soft(ttl=100, soft_ttl=50),
-                        "hit": cache.hit(ttl=100, cache_hits=10), "failover": None}[case["deco"]]
+                        "hit": cache.hit(ttl=100, cache_hits=10), "failover": None,
+                        "locked": cache.locked(ttl=10), "locked_nowait": cache.locked(ttl=10, wait=False)}[case["deco"]]
                 if deco is None:
                     return {"execs": case["calls"], "skip": True}
 
@@ -281,8 +287,15 @@ def run_impl(case):
                     if case.get("conc"):
                         await asyncio.gather(*[f(1) for _ in range(case["calls"])])
                     else:
-                        for _ in range(case["calls"]): await f(1)
+                        for _ in range(case["calls"]):
+                            try:
+                                await f(1)
+                            except Exception:  # noqa - a refused call is a call that did not execute
+                                pass
                 how = case["how"]
+                if how == "other_disabled":
+                    cache.setup("mem://?check_interval=0", prefix="off:")
+                    cache.disable(prefix="off:")
                 if how == "full": cache.disable()
                 elif how == "get": cache.disable(Command.GET)
                 elif how == "set": cache.disable(Command.SET)
